@@ -279,6 +279,42 @@ class SymArr(_np.ndarray):
             return self.elem()
         raise Unsupported("item() on non-scalar symbolic array")
 
+    def reshape(self, *shape, **kw):
+        """only reshapes that add or remove axes of length one (open meshes, column vectors): the entries keep
+        their order along the other axes"""
+        if kw:
+            raise Unsupported(f"reshape with options {sorted(kw)} on symbolic array")
+        if len(shape) == 1 and isinstance(shape[0], (tuple, list)):
+            shape = tuple(shape[0])
+        old_axes = [j for j, n in enumerate(self.shape) if not (isinstance(n, int) and n == 1)]
+        new_axes = [j for j, n in enumerate(shape) if not (isinstance(n, int) and n == 1)]
+        if any(isinstance(n, int) and n < 0 for n in shape) or len(old_axes) != len(new_axes):
+            raise Unsupported("ndarray.reshape on symbolic array (other than adding / removing axes of length one)")
+        for a, b in zip(old_axes, new_axes):
+            if not same_size(self.shape[a], shape[b]):
+                raise Unsupported("ndarray.reshape on symbolic array (other than adding / removing axes of length one)")
+        fz = self.frozen()
+        nd_old = self.ndim
+        zero = z3.IntVal(0)
+
+        def fn(idx):
+            src = [zero] * nd_old
+            for a, b in zip(old_axes, new_axes):
+                src[a] = idx[b]
+            return fz(tuple(src))
+
+        out = SymArr.fresh(tuple(shape), fn, self.kind)
+        seq = getattr(self, "_seq", None)
+        if seq is not None and len(new_axes) == 1:
+            out._seq = seq
+            out._seq_axis = new_axes[0]
+        return out
+
+    def ravel(self, order="C"):
+        out = self.flatten(order)
+        out._may_alias = "ravel()"
+        return out
+
     def flatten(self, order="C"):
         if order != "C":
             raise Unsupported(f"flatten(order={order!r}) of symbolic array")
@@ -302,6 +338,8 @@ class SymArr(_np.ndarray):
         return _advanced_read(self, plan)
 
     def __setitem__(self, key, value):
+        if getattr(self, "_may_alias", None):
+            raise Unsupported(f"write into the result of {self._may_alias} (numpy may return a view of the source there; the model returns a fresh array)")
         plan = _index_plan(self, key)
         if plan[0] == "basic":
             _, vaxes, fixed = plan
@@ -784,6 +822,13 @@ def sym_full_like(a, fill_value, dtype=None, **kw):
 def sym_array(obj, dtype=None, **kw):
     if hasattr(obj, "to_symarr"):
         return obj.to_symarr()
+    if isinstance(obj, SymSeq):
+        # a list of ids of symbolic length: the 1-d integer array of its elements (it remembers the sequence, as the
+        # open meshes of np.ix_ do, so that it can serve as an index array)
+        arr = SymArr.fresh((obj.n,), (lambda s: (lambda idx: s.fn(to_int(idx[0]))))(obj), "int")
+        arr._seq = obj
+        arr._seq_axis = 0
+        return arr
     if isinstance(obj, SymArr):
         return obj.copy()
     if isinstance(obj, (SymReal, SymInt, SymBool)):
@@ -847,6 +892,50 @@ class ndarray_shim(metaclass=_NdarrayMeta):
         if not _has_sym(shape) and not core.active():
             return _np.ndarray(shape, dtype=dtype, **kw)
         return SymArr.input(f"uninit{next(_uninit)}", shape, _kind_of_type(dtype))
+
+
+def sym_take(a, indices, axis=None, **kw):
+    """np.take(a, indices, axis) = a[(:,)*axis + (indices,)]"""
+    if not _has_sym(a, indices):
+        return _np.take(a, indices, axis=axis, **kw)
+    if kw:
+        raise Unsupported(f"np.take with options {sorted(kw)} on symbolic arrays")
+    a = as_symarr(a)
+    if axis is None:
+        if a.ndim != 1:
+            raise Unsupported("np.take on a flattened symbolic array")
+        axis = 0
+    axis = axis % a.ndim
+    return a[(slice(None),) * axis + (indices,)]
+
+
+def sym_delete(a, obj, axis=None):
+    """np.delete(a, <one position>, axis) along an axis of concrete length"""
+    if not _has_sym(a, obj):
+        return _np.delete(a, obj, axis=axis)
+    a = as_symarr(a)
+    if axis is None or not isinstance(obj, int) or isinstance(obj, bool):
+        raise Unsupported("np.delete on a symbolic array (other than one position along a given axis)")
+    axis = axis % a.ndim
+    L = a.shape[axis]
+    if not isinstance(L, int):
+        raise Unsupported("np.delete along an axis of symbolic length")
+    if not -L <= obj < L:
+        raise IndexError(f"index {obj} is out of bounds for axis {axis} with size {L}")
+    obj %= L
+    pre = (slice(None),) * axis
+    parts = []
+    if obj > 0:
+        parts.append(a[pre + (slice(0, obj),)])
+    if obj < L - 1:
+        parts.append(a[pre + (slice(obj + 1, L),)])
+    if not parts:
+        shape = list(a.shape)
+        shape[axis] = 0
+        return SymArr.fresh(tuple(shape), lambda idx: _const_expr(0, a.kind), a.kind)
+    if len(parts) == 1:
+        return parts[0].copy()
+    return sym_concatenate(parts, axis=axis)
 
 
 def sym_empty(shape, dtype=float, **kw):
@@ -1904,28 +1993,45 @@ def sym_concatenate(seq, axis=0, **kw):
     if not _has_sym(*seq):
         return _np.concatenate(seq, axis=axis, **kw)
     arrs = [as_symarr(x) for x in seq]
-    if any(x.ndim != 1 for x in arrs) or axis != 0:
-        raise Unsupported("concatenate of non-1d symbolic arrays")
+    if kw:
+        raise Unsupported(f"concatenate with options {sorted(kw)} on symbolic arrays")
+    nd = arrs[0].ndim
+    if nd == 0 or any(x.ndim != nd for x in arrs):
+        raise ValueError("all the input array dimensions except for the concatenation axis must match exactly (ranks differ)")
+    ax = axis % nd
+    for x in arrs[1:]:
+        for d in range(nd):
+            if d != ax and not same_size(x.shape[d], arrs[0].shape[d]):
+                raise ValueError("all the input array dimensions except for the concatenation axis must match exactly")
     fzs = [x.frozen() for x in arrs]
-    lens = [x.shape[0] for x in arrs]
+    lens = [x.shape[ax] for x in arrs]
     total = 0
     for n in lens:
         total = total + n
 
     def fn(idx):
-        i = to_int(idx[0])
+        i = to_int(idx[ax])
         off = z3.IntVal(0)
-        e = None
         bounds = []
         for fz, n in zip(fzs, lens):
             bounds.append((off, fz))
             off = off + _zsize(n)
-        e = bounds[-1][1]((i - bounds[-1][0],))
+
+        def at(fz, o):
+            j = list(idx)
+            j[ax] = i - o
+            return fz(tuple(j))
+
+        kinds = {x.kind for x in arrs}
+        cast = (lambda e: to_real(e)) if ("real" in kinds and len(kinds) > 1) else (lambda e: e)
+        e = cast(at(bounds[-1][1], bounds[-1][0]))
         for (o, fz), (o2, _) in zip(reversed(bounds[:-1]), reversed(bounds[1:])):
-            e = z3.If(i < o2, fz((i - o,)), e)
+            e = z3.If(i < o2, cast(at(fz, o)), e)
         return e
 
-    return SymArr.fresh((total,), fn, "real" if any(x.kind == "real" for x in arrs) else arrs[0].kind)
+    shape = list(arrs[0].shape)
+    shape[ax] = total
+    return SymArr.fresh(tuple(shape), fn, "real" if any(x.kind == "real" for x in arrs) else arrs[0].kind)
 
 
 ALLCLOSE_BOUND_FACTS = False  # (instantiating ALL => close(idx) on every read of the input makes the queries too heavy)
@@ -2186,7 +2292,7 @@ class _CutNdindex:
         raise StopIteration
 
 
-def sym_ndindex(*shape):
+def sym_ndindex(*shape, _depth=1):
     import sys
 
     if len(shape) == 1 and isinstance(shape[0], (tuple, list)):
@@ -2197,7 +2303,16 @@ def sym_ndindex(*shape):
     if not c.loop_contracts:
         raise Unsupported("np.ndindex over symbolic extents: loop needs a contract (none pending)")
     lc = c.loop_contracts.pop(0)
-    return _CutNdindex(tuple(shape), lc, sys._getframe(1))
+    return _CutNdindex(tuple(shape), lc, sys._getframe(_depth))
+
+
+def sym_arange(*args, **kw):
+    if not _has_sym(*args):
+        return _np.arange(*args, **kw)
+    if len(args) == 1 and isinstance(args[0], SymInt) and not kw:
+        ident = lambda j: j
+        return SymSeq(args[0], ident, inv=ident, name="diag")  # 0, 1, ..., n-1 (what diag_indices repeats per axis)
+    raise Unsupported("np.arange with symbolic start / step")
 
 
 def sym_diag_indices(n, ndim=2):
@@ -2407,6 +2522,10 @@ _FUNC_IMPL = {
     _np.allclose: sym_allclose,
     _np.isclose: sym_isclose,
     _np.array_equal: sym_array_equal,
+    _np.take: sym_take,
+    _np.delete: sym_delete,
+    _np.shape: lambda a: tuple(a.shape),
+    _np.ndim: lambda a: a.ndim,
     _np.zeros_like: sym_zeros_like,
     _np.ones_like: sym_ones_like,
     _np.empty_like: sym_empty_like,
@@ -2445,6 +2564,48 @@ _UFUNC_IMPL = {
 }
 
 
+class _UfuncShim:
+    """a numpy ufunc as seen by flodym modules: called on symbolic operands it applies the model; reduce / accumulate
+    are the matching reductions of the model (np.add.reduce = sum, np.add.accumulate = cumsum); everything else, and
+    every call on plain values, is the real ufunc"""
+
+    def __init__(self, real, impl, reduce=None, accumulate=None):
+        self._real, self._impl, self._reduce, self._accumulate = real, impl, reduce, accumulate
+
+    def __call__(self, *args, **kw):
+        if not _has_sym(*args):
+            return self._real(*args, **kw)
+        out = kw.pop("out", None)
+        if kw:
+            raise Unsupported(f"ufunc {self._real.__name__} with options {sorted(kw)} on symbolic operands")
+        r = self._impl(*args)
+        if out is not None:
+            if isinstance(out, tuple):
+                out = out[0]
+            if not isinstance(out, SymArr):
+                raise Unsupported("ufunc out= that is not a symbolic array")
+            out[...] = r
+            return out
+        return r
+
+    def reduce(self, a, axis=0, **kw):
+        if not _has_sym(a):
+            return self._real.reduce(a, axis=axis, **kw)
+        if self._reduce is None or kw:
+            raise Unsupported(f"ufunc {self._real.__name__}.reduce on symbolic array")
+        return self._reduce(a, axis=axis)
+
+    def accumulate(self, a, axis=0, **kw):
+        if not _has_sym(a):
+            return self._real.accumulate(a, axis=axis, **kw)
+        if self._accumulate is None or kw:
+            raise Unsupported(f"ufunc {self._real.__name__}.accumulate on symbolic array")
+        return self._accumulate(a, axis=axis)
+
+    def __getattr__(self, name):
+        return getattr(self._real, name)
+
+
 class NPShim:
     """stands in for the name `np` inside flodym modules during symbolic runs"""
 
@@ -2456,7 +2617,12 @@ class NPShim:
     full_like = staticmethod(sym_full_like)
     zeros_like = staticmethod(sym_zeros_like)
     ones_like = staticmethod(sym_ones_like)
+    shape = staticmethod(lambda a: tuple(a.shape) if isinstance(a, SymArr) else _np.shape(a))
+    ndim = staticmethod(lambda a: a.ndim if isinstance(a, SymArr) else _np.ndim(a))
     empty = staticmethod(sym_empty)
+    take = staticmethod(sym_take)
+    delete = staticmethod(sym_delete)
+    arange = staticmethod(sym_arange)
     empty_like = staticmethod(sym_empty_like)
     array = staticmethod(sym_array)
     asarray = staticmethod(sym_asarray)
@@ -2494,12 +2660,16 @@ class NPShim:
     stack = staticmethod(sym_stack)
     nonzero = staticmethod(sym_nonzero)
     argwhere = staticmethod(sym_argwhere)
-    add = staticmethod(lambda a, b: _elementwise2(a, b, lambda x, y: x + y) if _has_sym(a, b) else _np.add(a, b))
-    subtract = staticmethod(lambda a, b: _elementwise2(a, b, lambda x, y: x - y) if _has_sym(a, b) else _np.subtract(a, b))
-    multiply = staticmethod(lambda a, b: _elementwise2(a, b, lambda x, y: x * y) if _has_sym(a, b) else _np.multiply(a, b))
-    divide = staticmethod(lambda a, b: _elementwise2(a, b, lambda x, y: to_real(x) / to_real(y), "real") if _has_sym(a, b) else _np.divide(a, b))
+    add = _UfuncShim(_np.add, lambda a, b: _elementwise2(a, b, lambda x, y: x + y), reduce=lambda a, axis=0, **kw: sym_sum(a, axis=axis, **kw), accumulate=lambda a, axis=0, **kw: sym_cumsum(a, axis=axis, **kw))
+    subtract = _UfuncShim(_np.subtract, lambda a, b: _elementwise2(a, b, lambda x, y: x - y))
+    multiply = _UfuncShim(_np.multiply, lambda a, b: _elementwise2(a, b, lambda x, y: x * y), reduce=lambda a, axis=0, **kw: sym_prod(a, axis=axis, **kw))
+    divide = _UfuncShim(_np.divide, lambda a, b: _elementwise2(a, b, lambda x, y: to_real(x) / to_real(y), "real"))
     true_divide = divide
-    negative = staticmethod(lambda a: (-as_symarr(a)) if _has_sym(a) else _np.negative(a))
+    negative = _UfuncShim(_np.negative, lambda a: -as_symarr(a))
+    less = _UfuncShim(_np.less, lambda a, b: _elementwise2(a, b, lambda x, y: x < y, "bool"))
+    less_equal = _UfuncShim(_np.less_equal, lambda a, b: _elementwise2(a, b, lambda x, y: x <= y, "bool"))
+    greater = _UfuncShim(_np.greater, lambda a, b: _elementwise2(a, b, lambda x, y: x > y, "bool"))
+    greater_equal = _UfuncShim(_np.greater_equal, lambda a, b: _elementwise2(a, b, lambda x, y: x >= y, "bool"))
     log = staticmethod(sym_log)
     sqrt = staticmethod(sym_sqrt)
     exp = staticmethod(sym_exp)
